@@ -46,9 +46,14 @@ CHECKS = {
                      'largest model) and ALL integer inputs, every focused cell/name evaluates alike in the extracted and the original model and equals an independent reference, also after 1 (thorough 2) '
                      'input changes applied to both; the extracted model contains the transitive closure; the original is unchanged.',
                 note=XH_NOTE),
+    'C03': dict(engine='XH', technique='symbolic execution (CrossHair+z3) of RangeNode/Evaluator/ModelCompiler on compiled multi-sheet workbooks with symbolic cell contents; addresses enumerated',
+                text='Bounded symbolic model checking: all $ / qualified / quoted spellings of a reference to the same target on 3 sheets (names with blank and apostrophe), incl. chains crossing '
+                     'sheets, evaluate to the target value for ALL ints; every rectangle up to 2x3 (thorough 3x3) at two offsets with Optional[int] cells and a sentinel frame: SUM/COUNT/COUNTA = fold '
+                     'over exactly its cells; blank gaps of 0..128 rows (quick: 12 gap lengths around 50/100/128); defined names for cells and ranges; missing cells read as blank.',
+                note=XH_NOTE + ' Addresses are concrete (openpyxl regexes on symbolic address text do not finish); whole-column references and 3-D references are outside.'),
 }
 NA = {
     'C12': 'persist/restore is ten lines around jsonpickle -> json (C encoder) -> gzip/file I/O; no repo-side kernel a solver can quantify over (symbolic values are realised or pickled as proxy objects at the codec boundary)',
 }
-for _p in ['C03', 'C07', 'C08', 'C10', 'C11', 'C14', 'C15', 'C16', 'C18', 'C19', 'C20']:
+for _p in ['C07', 'C08', 'C10', 'C11', 'C14', 'C15', 'C16', 'C18', 'C19', 'C20']:
     NA.setdefault(_p, 'check not built yet in this revision (planned: see DESIGN.md §4)')
